@@ -30,9 +30,10 @@ type C04Case struct {
 	Codec      wire.Codec `json:"codec"`
 	Frames     []C04Frame `json:"frames"`
 	Cuts       []int      `json:"cuts"`
-	End        string     `json:"end"`         // fragmenter end behaviour after the last frame (eof|eofdata)
-	UseEncoder bool       `json:"use_encoder"` // frames from the shipped encoder (else reference framer)
-	Channel    bool       `json:"channel"`     // run through a real channel + read loop
+	End        string     `json:"end"`               // fragmenter end behaviour after the last frame (eof|eofdata)
+	UseEncoder bool       `json:"use_encoder"`       // frames from the shipped encoder (else reference framer)
+	Channel    bool       `json:"channel"`           // run through a real channel + read loop
+	Consume    string     `json:"consume,omitempty"` // how the consumer reads a message: "" readall | copy | tobytes
 }
 
 var c04Carriers = []string{"bytes", "string", "buffer", "breader", "sreader", "bb", "reader", "short"}
@@ -266,6 +267,7 @@ func genC04(t *rapid.T) C04Case {
 	}
 	c.End = "eof" // data returned together with io.EOF is not a transport-read fragmentation; see C14
 	c.Channel = rapid.IntRange(0, 49).Draw(t, "layer") == 0
+	c.Consume = rapid.SampledFrom([]string{"", "", "copy", "tobytes"}).Draw(t, "consume")
 	return c
 }
 
@@ -301,6 +303,7 @@ func runC04(c C04Case) (out core.Outcome) {
 	defer func() { out.Classes = cls.List() }()
 	cd := c.Codec
 	cls.Add("codec:%s", cd.Kind)
+	cls.Add("consume:%s", c.Consume)
 	if cd.Width > 0 {
 		cls.Add("width:%d", cd.Width)
 	}
@@ -448,11 +451,11 @@ func runC04(c C04Case) (out core.Outcome) {
 		var delivered int
 		ctx := &mock.Ctx{OnRead: func(m netty.Message) {
 			delivered++
-			b, err := wire.Flatten(m)
-			if err != nil {
-				panic(fmt.Sprintf("consumer: reading delivered message failed: %v", err))
+			d := consumeMessageAs(m, c.Consume)
+			if d.err != nil {
+				panic(fmt.Sprintf("consumer: reading delivered message failed: %v", d.err))
 			}
-			got = b
+			got = d.data
 		}}
 		pv := mock.Catch(func() { dec.HandleRead(ctx, fr) })
 		if pv != nil {
